@@ -86,13 +86,21 @@ FindTry(K, reason) == IF K = <<>> THEN <<>>
 
 \* does the statement list start with symbol c ?  Strong first set (OP3): only explicit patterns count - the `else`
 \* clause of a case and the skipping of a wait are fall-backs, which a preceding optional / lookahead construct overrides
+\* can the statement list be passed without input ?
+RECURSIVE PassList(_)
+PassList(ss) == IF ss = <<>> THEN TRUE
+                ELSE LET s == Head(ss) IN
+                  (CASE s.t = "match" -> Nullable(s.r) [] s.t = "opt" -> TRUE [] IsAct(s) -> TRUE
+                     [] s.t \in {"try", "foreach"} -> PassList(s.b) [] OTHER -> FALSE) /\ PassList(Tail(ss))
 RECURSIVE Accepts(_, _)
 Accepts(ss, c) ==
   IF ss = <<>> THEN FALSE ELSE LET s == Head(ss) IN
   CASE s.t = "match" -> c \in FirstOf(s.r) \/ (Nullable(s.r) /\ Accepts(Tail(ss), c))
     [] s.t = "wait" -> c \in FirstOf(s.r)
     [] s.t = "opt" -> Accepts(s.b, c) \/ Accepts(Tail(ss), c)
-    [] s.t \in {"loop", "try", "foreach"} -> Accepts(s.b, c)
+    [] s.t = "loop" -> Accepts(s.b, c)
+    \* (a try / foreach body made of actions only is passed without input: the symbol may start what follows the block)
+    [] s.t \in {"try", "foreach"} -> Accepts(s.b, c) \/ (PassList(s.b) /\ Accepts(Tail(ss), c))
     [] s.t = "case" -> \E i \in DOMAIN s.cl : c \in FirstOf(s.cl[i].r)
     [] s.t = "if" -> (\E i \in DOMAIN s.br : Accepts(s.br[i].b, c)) \/ Accepts(s.eb, c) \/ Accepts(Tail(ss), c)
     [] IsAct(s) -> Accepts(Tail(ss), c)
@@ -228,11 +236,7 @@ Go(M, c0, sym, ph, evs, fuel, dn, cons, raised) ==
 
 \* ---------------- one-byte-lookahead ambiguity (C09) ----------------
 \* first symbols (strong first sets) of what follows on the continuation stack, and whether it can be passed without input
-RECURSIVE PassList(_), AccK(_, _)
-PassList(ss) == IF ss = <<>> THEN TRUE
-                ELSE LET s == Head(ss) IN
-                  (CASE s.t = "match" -> Nullable(s.r) [] s.t = "opt" -> TRUE [] IsAct(s) -> TRUE
-                     [] s.t \in {"try", "foreach"} -> PassList(s.b) [] OTHER -> FALSE) /\ PassList(Tail(ss))
+RECURSIVE AccK(_, _)
 AccK(K, c) ==
   IF K = <<>> THEN FALSE
   ELSE LET top == Head(K) IN
